@@ -275,7 +275,7 @@ func genSurface() {
 	// the reverse proxy's director: after the library's own director, the outgoing URL is made opaque and set to the
 	// request target as received (so the upstream sees the client's request line), and newReverseProxy installs it
 	const httpRel = "pkg/upstream/http.go"
-	directorOK, installed := false, 0
+	directorOK, installed, wsInstalled, hostGuards := false, 0, 0, 0
 	if hf := parse(httpRel); hf != nil {
 		for _, d := range hf.Decls {
 			fd, ok := d.(*ast.FuncDecl)
@@ -285,10 +285,25 @@ func genSurface() {
 			if fd.Name.Name == "setProxyDirector" {
 				directorOK = directorShape(httpRel, fd)
 			}
-			if fd.Name.Name == "newReverseProxy" {
+			if fd.Name.Name == "newReverseProxy" || fd.Name.Name == "newWebSocketReverseProxy" {
+				ws := fd.Name.Name == "newWebSocketReverseProxy"
 				ast.Inspect(fd.Body, func(n ast.Node) bool {
 					if c, ok := n.(*ast.CallExpr); ok && calleeName(c) == "setProxyDirector" {
-						installed++
+						if ws {
+							wsInstalled++
+						} else {
+							installed++
+						}
+					}
+					// if upstream.PassHostHeader != nil && !*upstream.PassHostHeader { setProxyUpstreamHostHeader(...) }
+					if is, ok := n.(*ast.IfStmt); ok && strings.Join(strings.Fields(exprText(httpRel, is.Cond)), "") == "upstream.PassHostHeader!=nil&&!*upstream.PassHostHeader" {
+						for _, st := range is.Body.List {
+							if es, ok := st.(*ast.ExprStmt); ok {
+								if c, ok := es.X.(*ast.CallExpr); ok && calleeName(c) == "setProxyUpstreamHostHeader" {
+									hostGuards++
+								}
+							}
+						}
 					}
 					return true
 				})
@@ -300,6 +315,10 @@ func genSurface() {
 	g.line("Definition director_passes_request_uri : bool := %v.", directorOK)
 	g.line("(* calls of setProxyDirector inside newReverseProxy *)")
 	g.line("Definition director_installations : nat := %d.", installed)
+	g.line("(* calls of setProxyDirector inside newWebSocketReverseProxy: upgrade requests are sent the same way *)")
+	g.line("Definition ws_director_installations : nat := %d.", wsInstalled)
+	g.line("(* both constructors replace the Host header under `PassHostHeader != nil && !*PassHostHeader` *)")
+	g.line("Definition host_header_guards : nat := %d.", hostGuards)
 	// the cipher that seals server-side store entries: nothing else authenticates a stored value, so it must be the
 	// authenticated one (AES-GCM), not the malleable stream mode the signed cookies use
 	const ticketRel = "pkg/sessions/persistence/ticket.go"
